@@ -19,6 +19,13 @@ def replay(spec):
         q.py_set_current_time(t0)
         ok = ok and abs(q.py_get_next_queue_time() - (t0 + dt)) < 1e-12
         return {"reproduced": not ok, "observed": q.py_get_next_queue_time(), "expected": t0 + dt}
+    if op == "construct":
+        bad = []
+        for dt_, t0_ in ((dt, float(v.get("t0", 0.25))), (0.5, 0.25), (0.5, -0.75), (0.3, 1.0), (0.25, 1.0)):
+            q_ = ArrayDelayQueue(np.zeros((R, C)), dt_, t0_)
+            if abs(q_.py_get_next_queue_time() - (t0_ + dt_)) > 1e-12 * max(1.0, abs(t0_ + dt_)):
+                bad.append("ArrayDelayQueue(array, dt=%s, current_time=%s): first slot at %r, expected %r" % (dt_, t0_, q_.py_get_next_queue_time(), t0_ + dt_))
+        return {"reproduced": bool(bad), "observed": bad[:3], "expected": "first slot one step after the construction time"}
     if op == "retime":
         # an advanced queue with pending entries is given a new clock: the entries must come out at the same distances
         q.py_set_current_time(0.0)
